@@ -101,7 +101,7 @@ def multiply(
         + int(x2.exponents.max(initial=0))
         + x1.KEY_OFFSET
     )
-    if largest < 128:
+    if largest < 128 and out_.dtype == dtype and dtype in numpoly.KERNEL_DTYPES:
         numpoly.cmultiply(
             x1.exponents,
             x2.exponents,
@@ -111,8 +111,10 @@ def multiply(
             out_.values.ravel(),
         )
     else:
-        # The compiled kernel formats each key character as a single byte;
-        # larger exponent sums need the keys to be built as full code points.
+        # The compiled kernel formats each key character as a single byte and
+        # copies the coefficients byte for byte: larger exponent sums need the
+        # keys to be built as full code points, other dtypes need numpy to do
+        # the assignment.
         seen = set()
         for expon1, coeff1 in zip(x1.exponents, x1.coefficients):
             for expon2, coeff2 in zip(x2.exponents, x2.coefficients):
